@@ -550,7 +550,7 @@ func c06Counters(a *Anchors, r *core.Report) {
 
 // c06Release: G3
 func c06Release(a *Anchors, r *core.Report) {
-	releaseRules(a, r, "C06.G3 complete-release", 9)
+	releaseRules(a, r, "C06.G3 complete-release", 10)
 }
 
 // releaseRules emits the complete-release obligations under the given rule name (shared by C06.G3 and C04.L2).
